@@ -283,8 +283,6 @@ fn collect<const N: usize>(kinds: [u8; N]) {
     match (result, produced) {
         (Poll::Pending, None) => {
             assert!(consumed == N, "without a usable answer every datagram is read and the client keeps waiting");
-            kani::cover!(d[0].bytes[4] == domain && be16(&d[0].bytes, 30) != request_id && !d[0].recv_err && well_formed(&d[0], kinds[0]), "well-formed datagram with a foreign sequence id ignored");
-            kani::cover!(d[0].bytes[4] != domain && be16(&d[0].bytes, 30) == request_id && !d[0].recv_err && well_formed(&d[0], kinds[0]), "well-formed datagram of a foreign domain ignored");
         }
         (Poll::Ready(m), Some((si, fi, last))) => {
             assert!(consumed == last + 1, "the measurement is produced by the completing datagram; nothing after it is read");
@@ -306,7 +304,6 @@ fn collect<const N: usize>(kinds: [u8; N]) {
                 let fu_corr = be64(fb, 8) as i64;
                 assert!(m.response_correction().0 == sync_corr.saturating_add(fu_corr), "two-step: corrections add up (saturating)");
             }
-            kani::cover!(fi != usize::MAX, "two-step measurement from a Sync and a Follow_Up");
             kani::cover!(true, "measurement produced");
         }
         (Poll::Ready(_), None) => assert!(false, "a measurement was produced although no usable answer was delivered"),
